@@ -35,6 +35,11 @@ CHECKS = {
          "All values of u8/u16/i16 (and all 2^32 of u32/i32 in the thorough tier), a 2e5-pattern alphabet of u64, 627 strings, and every Vec<u8|u16|u32> of length 0..5 (6) over a 5-value boundary alphabet plus lengths 1000 and 1e6 are passed to the real get_sig and compared with an independent native-endian concatenation. Vector types run in supervised sub-processes so that a glibc abort is an observation; the small sweep is repeated under valgrind memcheck (both tiers) and under cargo miri (thorough) so that reads/frees of unowned memory fail loudly. ProbMinHash3aSha is driven with keys of every Sig type in all 24 insertion orders.",
          "memory safety is decided by the detectors on the explored values only; u64/String/Vec domains are boundary alphabets",
          "DESIGN.md §4 C18"),
+ "C14": ("model_checking",
+         "exhaustive enumeration of all sketch pairs up to a bound against a counting reference model",
+         "Counting estimators: every ordered pair of sketches of length 1..5 over a 3-letter alphabet (1.86e6 pairs in all) for each of the 6 free functions and the 2 estimator methods and each element type, compared with count/len computed independently in the type's arithmetic, plus symmetry, value 1 on identical sketches, range, and every length pair la!=lb<=5 (must be Err or panic, never a value). MLE: every ordered pair of register vectors over two 4-letter alphabets, m<=3 (quick) / 4 (thorough), b in {1.001,1.2,2}, and every ordered pair of real sketches of a 15-set family (nested chain 1..1e5, disjoint, identical, 30 vs 20000, empty) for m in {64,256,(4096)}: the real get_mle must return Some(j), j finite in [0,1], without aborting.",
+         "estimators only compare elements, so longer sketches / larger alphabets are assumed to behave alike; MLE domain limited to the explored register alphabets (cardinality ratios >= 1e-12) and set family",
+         "DESIGN.md §4 C14"),
 }
 PENDING_REASON = "check not built yet in this revision (see DESIGN.md §4 for the planned model-checking approach)"
 
